@@ -131,6 +131,12 @@ func (x *Exec) callFunc(st *State, fr *frame, site ssa.Instruction, fn *ssa.Func
 			if idx, err := strconv.Atoi(c.What); err == nil {
 				if idx < len(args) {
 					st.caps[c.Name] = args[idx]
+					if idx < len(fn.Params) {
+						if x.capTypes == nil {
+							x.capTypes = map[string]types.Type{}
+						}
+						x.capTypes[c.Name] = fn.Params[idx].Type()
+					}
 				}
 				continue
 			}
